@@ -32,6 +32,14 @@ theorem facts_has_globals : "regexMap" ∈ Facts.Conc.generatedGlobals ∧ "ratM
 theorem facts_no_global_writes :
     Facts.Conc.generatedGlobalWrites = [] ∧ Facts.Conc.runtimeGlobalWrites = [] := by decide
 
+/-- methods called on package-level variables outside `init` (a pointer-receiver method could write through the
+    variable): none in the generated package; in the runtime packages only `strings.Replacer.Replace`, which is
+    documented as safe for concurrent use -/
+theorem facts_global_method_calls :
+    Facts.Conc.generatedGlobalMethodCalls = [] ∧
+    Facts.Conc.runtimeGlobalMethodCalls.all (fun c => ["http/quoteEscaper.Replace", "uri/quoteEscaper.Replace"].contains c) = true := by
+  decide
+
 /-- **every call's outcome equals the outcome it has when run alone**, for every interleaving -/
 theorem outcome_as_alone {G L} (m : Machine G L) (g : G) (st : Nat → L) (sched : List Nat) (i : Nat) :
     runSched m g st sched i = runSched m g st (List.replicate (sched.count i) i) i :=
